@@ -6,9 +6,9 @@ ASSUMPTIONS = ['md5 output has 16 bytes', 'packets handed to the parser have at 
 RULE = 'parse of valid and mutated request packets over all codes, Message-Authenticator placements/counts/lengths, truncated/padded/off-by-one length fields; distinct = distinct implementation observation lines'
 def generate_core(rng, tier):
     n = 60000 if tier == 'thorough' else 2500
-    return batch(codec.parse_ops(rng, n), 'parse', 100)
+    return batch(codec.parse_ops(rng, n) + codec.interleaved_parse_ops(rng, 600 if tier == 'thorough' else 60), 'parse', 100)
 
 def generate(rng, tier):
     """the component-level cases, then the clause seen through the whole request/reply pipeline"""
     import pipeline, focus
-    return generate_core(rng, tier) + focus.ma_policy_cases(rng, 200 if tier == 'thorough' else 16) + pipeline.cases(rng, 300 if tier == 'thorough' else 20, nops=10)
+    return generate_core(rng, tier) + focus.ma_policy_cases(rng, 200 if tier == 'thorough' else 16) + focus.eap_fragment_cases(rng, 200 if tier == 'thorough' else 16) + pipeline.cases(rng, 300 if tier == 'thorough' else 20, nops=10)
